@@ -196,6 +196,7 @@ class C18(Prop):
         nv = rng.choice([1, 2, 2, 3])
         c = lang.GenCfg(vars=list(lang.VAR_POOL[:nv]), max_depth=rng.choice([0, 1, 2, 3]),
                         max_bound=rng.choice([2, 4, 6]))
+        c.wide = 0.04          # a few windows of 64..200 samples
         if kind in ('dt_online', 'dt_pastified'):
             c.future = False
         if rng.random() < 0.3:
